@@ -97,7 +97,7 @@ structure PhaseSound (m : Mon) (x : MS) (cl : CallLine) (who : Nat) (c1 : CState
   against the observation of any later state in which the operation ledgers are those of `c1` -/
   self : who = 0 → ∃ md rest, cl.sig = some (md :: rest) ∧
     ∀ c' ok0 eq0, c'.tl.ledger = c1.tl.ledger →
-      consumed m (modelObs x.c x.defs ok0 eq0) (modelObs c' x.defs true none) (fnOf cl.call) (argsOf cl.call) md 0 cl.auth = none
+      consumed m (modelObs x.c x.defs ok0 eq0) (modelObs c' x.defs true none) (fnOf cl.call) (argsOf cl.call) md 0 cl.auth true = none
   plain : who ≠ 0 → AuthM.call who ∈ cl.auth
   ghost : ∀ now id, (ghostStep m cl now x.c.admin).get (some id) = toG (Timelock.ghost c1.tl.log id)
   known : ∀ id, Timelock.ghost c1.tl.log id ≠ .unset → id ∈ x.defs.map Operation.id
@@ -118,7 +118,8 @@ theorem phase_sound (m : Mon) (x : MS) (hi : MInv x) (ha : Agree m x) (cl : Call
   · -- the controller itself
     have hw0 : who = 0 := by rw [hself, hi.self]
     obtain ⟨md, hmd, hres, hsalt, hexe⟩ := resolveSig_single hsig
-    obtain ⟨h2, hn, _, htl⟩ := setExecute_ok hse
+    obtain ⟨h2, hn, hpd0, htl⟩ := setExecute_ok hse
+    have hpd : true = true → mt.pred = Id.zero ∨ x.c.tl.ledger mt.pred = 1 := fun _ => hpd0
     have hid : (opOf x.c.self (fnOf cl.call) (argsOf cl.call) mt).id =
         Id.op 0 (fnOf cl.call) (argsOf cl.call) mt.pred md.s := by
       rw [hi.self, ← hsalt]; rfl
@@ -140,7 +141,7 @@ theorem phase_sound (m : Mon) (x : MS) (hi : MInv x) (ha : Agree m x) (cl : Call
     have hdone1 : tl'.ledger (Id.op 0 (fnOf cl.call) (argsOf cl.call) mt.pred md.s) = 1 := by
       rw [htl]; show updId _ _ _ _ = 1; rw [updId_same]; rfl
     have hkey := (consumed_none m x hi ha { x.c with tl := tl' } true none (fnOf cl.call) (argsOf cl.call) md mt.pred hres 0
-      cl.auth hready hdone1 hexec).2
+      cl.auth hready hdone1 hexec true hpd).2
     have hmem : Id.op 0 (fnOf cl.call) (argsOf cl.call) mt.pred md.s ∈ x.defs.map Operation.id := by
       unfold keyOf at hkey
       cases hf : findDef x.defs (opKey (fnOf cl.call) (argsOf cl.call) (refKey x.defs md.p) md.s) with
@@ -163,7 +164,7 @@ theorem phase_sound (m : Mon) (x : MS) (hi : MInv x) (ha : Agree m x) (cl : Call
       refine ⟨md, [], hmd, ?_⟩
       intro c' ok0 eq0 hl
       exact (consumed_none m x hi ha c' ok0 eq0 (fnOf cl.call) (argsOf cl.call) md mt.pred hres 0 cl.auth hready
-        (by rw [hl]; exact hdone1) hexec).1
+        (by rw [hl]; exact hdone1) hexec true hpd).1
     · intro now id
       rw [ghostStep_own m cl now _ hown, hcons, hw0]
       simp only [decide_true, if_true]
